@@ -386,6 +386,37 @@ pub fn replay(args: &[String]) {
                 "rounds":rounds,"blocks_left":after.0 - before.0,"bytes_left":after.1 - before.1}));
         }
     }
+    // assignment through Clone::clone_from (also what Option / Vec forward to): the replaced buffer is released
+    {
+        ledger::start();
+        let before = ledger::live();
+        for round in 0..40usize {
+            let d1: Vec<u8> = vec![round as u8; 100 + round];
+            let d2: Vec<u8> = vec![(round + 1) as u8; 300 + round];
+            let pa = PATHS[round % 8];
+            let mut a = ledger::track(|| construct(if pa == "vec_empty" { "slice" } else { pa }, &d1));
+            let b = ledger::track(|| construct("vec_excess", &d2));
+            a.clone_from(&b);
+            let ok1 = &a[..] == &d2[..];
+            let same = a.clone();
+            a.clone_from(&same); // onto a handle of the same buffer
+            let mut oa = Some(ledger::track(|| construct("slice", &d1)));
+            oa.clone_from(&Some(b.clone()));
+            let mut va = vec![ledger::track(|| construct("box", &d1)), ledger::track(|| construct("iter", &d1))];
+            va.clone_from(&vec![b.clone()]);
+            let ok2 = oa.as_deref() == Some(&d2[..]) && va.len() == 1 && &va[0][..] == &d2[..];
+            if !ok1 || !ok2 {
+                rep.mismatch(json!({"what":"clone_from does not give the contents of its source","round":round}));
+            }
+        }
+        let after = ledger::live();
+        ledger::stop();
+        rep.cases += 1;
+        if after != before || ledger::LAYOUT_MISMATCH.swap(0, std::sync::atomic::Ordering::SeqCst) > 0 {
+            rep.mismatch(json!({"what":"a buffer replaced through clone_from (directly, in an Option, in a Vec) is not released exactly once",
+                "blocks_left":after.0 - before.0,"bytes_left":after.1 - before.1}));
+        }
+    }
     // compare / order / hash like the slices
     for _ in 0..2000 {
         rep.checks += 1;
